@@ -45,7 +45,7 @@ type OracleOut struct {
 	Steps    []int64  `json:"steps,omitempty"`
 	Output   int64    `json:"output_bytes"` // bytes written to fd 1/2 during the calls
 	ArgMut   []string `json:"arg_mutated,omitempty"`
-	Hung     int      `json:"hung"` // index (in IDs) of a call that never returned, -1 if none
+	Hung     int      `json:"hung"`            // index (in IDs) of a call that never returned, -1 if none
 	Crash    string   `json:"crash,omitempty"` // filled by the driver: the oracle process died (Go runtime fatal error in library code)
 	CrashAt  int      `json:"crash_at,omitempty"`
 }
@@ -53,8 +53,8 @@ type OracleOut struct {
 // Event mirrors simrt.Event.
 type Event struct {
 	Kind   uint8  `json:"k"`
-	Task   int8   `json:"t"`
-	Next   int8   `json:"n"`
+	Task   int16  `json:"t"`
+	Next   int16  `json:"n"`
 	Op     int32  `json:"op"`
 	OpStep int64  `json:"os"`
 	Site   uint32 `json:"site,omitempty"`
